@@ -45,6 +45,8 @@ def base_axioms():
           z3.ForAll([o], tuple_len(o) >= 0),
           z3.ForAll([o], type_of(o) != NULL),
           z3.Distinct(*([NULL, NONE, TRUE, FALSE] + list(TYPES.values()) + list(SINGLETONS.values()))),
+          z3.Const("g_some_exception_type", Obj) != NULL,
+          z3.Distinct(*([NULL] + [z3.Const("g_" + g, Obj) for g in EXC_OBJ])),
           type_of(NONE) != TYPES["PyFloat_Type"], type_of(NONE) != TYPES["PyLong_Type"],
           z3.Not(subtype(type_of(NONE), TYPES["PyFloat_Type"])), z3.Not(subtype(type_of(NONE), TYPES["PyLong_Type"])),
           z3.Not(subtype(type_of(NONE), TYPES["PyTuple_Type"])),
@@ -273,7 +275,11 @@ class Api:
 
     # ---- calls into Python ---------------------------------------------------------------------------------
     def f_PyObject_CallMethod(self, a, st, k):
-        st = self.nonnull(st, a[0], "PyObject_CallMethod")
+        # a NULL receiver is not undefined behaviour: CPython reports SystemError ("null argument to internal routine")
+        return self.cx.branch(st, a[0] == NULL, lambda s: k(NULL, s.with_exc(EXC["SystemError"])),
+                              lambda s: self._callmethod(a, s, k))
+
+    def _callmethod(self, a, st, k):
         rec = ("callmethod", a[0], a[1].s if isinstance(a[1], StrLit) else "?", tuple(a[3:]))
         st = st.log(rec)
         hook = getattr(self.cx, "callmethod_hook", None)
@@ -318,3 +324,25 @@ class Api:
         e = self.cx.fresh("exc", INT)
         out += self.cx.branch(s1, raises, lambda t: k(NULL, t.assume(e >= 1).with_exc(e)), lambda t: [])
         return out
+
+
+def _py_number(name, exact_type=None):
+    def f(self, a, st, k):
+        o = a[0]
+        st = self.nonnull(st, o, name)
+        s1 = self.havoc(st, name)
+        out = []
+        r, s_ok = self.fresh_obj(name.lower(), s1)
+        facts = [is_inst(r, "PyLong_Type")]
+        if exact_type:
+            facts.append(is_exact(r, exact_type))
+        out += k(r, s_ok.assume(*facts))
+        e = self.cx.fresh("exc", INT)
+        has = z3.Function("has_index_protocol", Obj, z3.BoolSort())(o)
+        out += k(NULL, s1.assume(e >= 1, z3.Implies(z3.Not(has), e == EXC["TypeError"])).with_exc(e))
+        return out
+    return f
+
+
+Api.f_PyNumber_Index = _py_number("PyNumber_Index")
+Api.f_PyNumber_Long = _py_number("PyNumber_Long", "PyLong_Type")
